@@ -263,6 +263,8 @@ pub enum Stmt {
     Delete { tbl: String, wher: E, has_where: bool },
     Create(TableDef),
     Drop(String),
+    /// DROP TABLE IF EXISTS: a no-op when the table is not there
+    DropIfExists(String),
     Index { name: String, tbl: String, cols: Vec<(usize, String)> },
     /// ALTER TABLE t ALTER COLUMN c SET | DROP NOT NULL (column index is 1-based)
     AlterNn { tbl: String, col: (usize, String), nn: bool },
@@ -283,6 +285,7 @@ impl Stmt {
             Stmt::Delete { tbl, wher, has_where } => format!("DELETE FROM {}{}", tbl, if *has_where { format!(" WHERE {}", wher.sql()) } else { String::new() }),
             Stmt::Create(t) => t.create_sql(),
             Stmt::Drop(t) => format!("DROP TABLE {t}"),
+            Stmt::DropIfExists(t) => format!("DROP TABLE IF EXISTS {t}"),
             Stmt::Index { name, tbl, cols } => format!("CREATE UNIQUE INDEX {} ON {} ({})", name, tbl, cols.iter().map(|c| c.1.clone()).collect::<Vec<_>>().join(", ")),
             Stmt::AlterNn { tbl, col, nn } => format!("ALTER TABLE {} ALTER COLUMN {} {} NOT NULL", tbl, col.1, if *nn { "SET" } else { "DROP" }),
             Stmt::Opaque { sql, .. } => sql.clone(),
@@ -297,7 +300,8 @@ impl Stmt {
                 "set": set.iter().map(|(c, _, e)| json!({"c": c, "e": e.json()})).collect::<Vec<_>>(), "where": wher.json()}),
             Stmt::Delete { tbl, wher, .. } => json!({"k": "delete", "tbl": tbl, "where": wher.json()}),
             Stmt::Create(t) => t.create_json(),
-            Stmt::Drop(t) => json!({"k": "drop", "tbl": t}),
+            Stmt::Drop(t) => json!({"k": "drop", "tbl": t, "ifx": false}),
+            Stmt::DropIfExists(t) => json!({"k": "drop", "tbl": t, "ifx": true}),
             Stmt::Index { tbl, cols, .. } => json!({"k": "index", "tbl": tbl, "cols": cols.iter().map(|c| c.0).collect::<Vec<_>>()}),
             Stmt::AlterNn { tbl, col, nn } => json!({"k": "alternn", "tbl": tbl, "c": col.0, "nn": nn}),
             Stmt::Opaque { ro, .. } => json!({"k": "opaque", "ro": ro}),
